@@ -176,8 +176,17 @@ def main(tier: str, seed: int) -> int:
                 s1 = 0  # a boundary value of the seed: reset(seed=0) re-seeds like any other seed
             dirty = [rng.choice(dirt_idx) if rng.random() < 0.8 else rng.randrange(len(names)) for _ in range(dirty_len)]
             sigma = [rng.randrange(len(names)) for _ in range(sigma_len)]
-            ops_d = [["new", "A"], ["reset", "A", s0]] + [["step", "A", a] for a in dirty] + [["reset", "A", s1]] + [["step", "A", a] for a in sigma]
-            ops_f = [["new", "A"], ["reset", "A", s0], ["reset", "A", s1]] + [["step", "A", a] for a in sigma]
+            if isinstance(cfg, str):
+                # an episode schedule: the reference must be at the same episode index
+                ops_d = [["new", "A"], ["reset", "A", s0]] + [["step", "A", a] for a in dirty] + [["reset", "A", s1]] + [["step", "A", a] for a in sigma]
+                ops_f = [["new", "A"], ["reset", "A", s0], ["reset", "A", s1]] + [["step", "A", a] for a in sigma]
+            else:
+                # a constant scenario: the episode started by reset(seed=s1) is determined by (scenario, s1, actions) whatever
+                # came before - seeded and unseeded resets, dirtying steps - and equals the first episode of a new environment
+                h = len(dirty) // 2
+                ops_d = ([["new", "A"], ["reset", "A", s0]] + [["step", "A", a] for a in dirty[:h]] + [["reset", "A", None]]
+                         + [["step", "A", a] for a in dirty[h:]] + [["reset", "A", s1]] + [["step", "A", a] for a in sigma])
+                ops_f = [["new", "A"], ["reset", "A", s1]] + [["step", "A", a] for a in sigma]
             specs += [{"instances": inst, "ops": ops_d}, {"instances": inst, "ops": ops_f}]
             index.append(("episodes", label, len(specs) - 2, len(specs) - 1, 1 + dirty_len, 1, {"dirty": [names[a] for a in dirty][:20]}))
             chk.add_case({"part": "episodes", "s": label, "dirty": dirty, "sigma": sigma})
@@ -248,11 +257,11 @@ def main(tier: str, seed: int) -> int:
             if not sb or str(b["raised"]).startswith("new"):
                 raise tlc.TLCError(f"vacuous reference run for {part}/{label}: {b['raised']}")
         if part == "episodes":
-            # compare from the second reset on
+            # compare from the last reset on
             ka = [n for n, s in enumerate(sa) if s["kind"] == "reset"]
             kb = [n for n, s in enumerate(sb) if s["kind"] == "reset"]
-            sa = sa[ka[1]:] if len(ka) > 1 else []
-            sb = sb[kb[1]:] if len(kb) > 1 else []
+            sa = sa[ka[-1]:] if len(ka) > 1 else []
+            sb = sb[kb[-1]:] if len(kb) > 0 else []
         if part == "schedule":
             # compare from the last reset on (episode k against the first use of the same schedule entry)
             ka = [n for n, s in enumerate(sa) if s["kind"] == "reset"]
